@@ -81,11 +81,18 @@ Inductive lop :=
 | LChanAdd                              (* qb_list_add(&c->list, &s->connections): the channel exists *)
 | LChanDel
 | LPeerSend                             (* the peer sends a request on whatever it has; the server looks *)
+| LForeign (tr : transport) (filt : bool)
+    (* a process that is NOT the connection's peer sends a well-formed request to the connection's request address; the
+       server looks.  shm: there is no such address (the ring files are protected by their permissions).  socket: the
+       address is an abstract-namespace datagram socket anybody can send to; [filt] = the tree carries
+       fixes/C05-sock-request-sender-check.patch (qb_ipc_us_recv_at_most drops datagrams whose SCM_CREDENTIALS pid is not
+       the peer's) *)
 | LCb (c : cbkind).
 Definition op := (nat * lop)%type.
 
 Inductive levent :=
-| EvAccept (uid gid : Z) | EvRespond (err : Z) | EvMsg | EvCb (c : cbkind).
+| EvAccept (uid gid : Z) | EvRespond (err : Z) | EvMsg | EvCb (c : cbkind)
+| EvMsgForeign.                         (* msg_process invoked for a request the connection's peer did not send *)
 
 Record lstate := mkL { l_fs : lfs; l_chan : bool; l_log : list levent }.
 Definition l_empty : lstate := mkL [] false [].
@@ -150,6 +157,11 @@ Definition lexec (en : env) (s : lstate) (o : lop) : lstate * Z :=
   | LChanAdd => (mkL (l_fs s) true (l_log s), 0)
   | LChanDel => (mkL (l_fs s) false (l_log s), 0)
   | LPeerSend => if l_chan s then (with_log s EvMsg, 0) else (s, 0)     (* msg_process only through a channel *)
+  | LForeign tr filt =>
+      match tr with
+      | Shm => (s, 0)
+      | Sock => if l_chan s && negb filt then (with_log s EvMsgForeign, 0) else (s, 0)
+      end
   | LCb c => (with_log s (EvCb c), 0)
   end.
 
@@ -299,4 +311,7 @@ Fixpoint accepts (l : list levent) : list (Z * Z) :=
   match l with [] => [] | EvAccept u g :: r => (u, g) :: accepts r | _ :: r => accepts r end.
 Fixpoint responses (l : list levent) : list Z :=
   match l with [] => [] | EvRespond e :: r => e :: responses r | _ :: r => responses r end.
-Definition is_send (o : lop) : bool := match o with LPeerSend => true | _ => false end.
+Definition is_send (o : lop) : bool := match o with LPeerSend => true | LForeign _ _ => true | _ => false end.
+(* a foreign datagram that cannot get through: no address (shm) or the sender check is in place *)
+Definition foreign_blocked (o : lop) : bool :=
+  match o with LForeign Sock false => false | _ => true end.
